@@ -42,6 +42,17 @@ let cur_gi : ginfo option ref = ref None
 let cur_tabs : (gen_error, tables) sum option ref = ref None
 let cur_act : (z * z list) list ref = ref []
 
+(* memoised table of a variant: semantically table_of v t, tabulated per (state, symbol) *)
+let memo : (int, (int * int, action) Hashtbl.t) Hashtbl.t = Hashtbl.create 8
+let memo_table vi v t : table =
+  let h = (match Hashtbl.find_opt memo vi with Some h -> h | None -> let h = Hashtbl.create 256 in Hashtbl.add memo vi h; h) in
+  let f = table_of v t in
+  fun q a ->
+    let k = (int_of_nat q, int_of_nat a) in
+    match Hashtbl.find_opt h k with
+    | Some x -> x
+    | None -> let x = f q a in Hashtbl.add h k x; x
+
 let get_tabs () =
   match !cur_tabs with
   | Some t -> t
@@ -93,7 +104,7 @@ let () =
       (* G id nsyms nterm nrules *)
       let id = (match next () with Some s -> s | None -> failwith "id") in
       let nsyms = next_int () in let nterm = next_int () in let nrules = next_int () in
-      cur_id := id; cur_tabs := None; cur_act := [];
+      cur_id := id; cur_tabs := None; cur_act := []; Hashtbl.reset memo;
       let sprec = read_n nsyms (fun () -> let p = next_int () in let a = next_int () in (z_of_int p, assoc_of_int a)) in
       let rules = read_n nrules (fun () ->
         let l = next_int () in let p = next_int () in let a = next_int () in let k = next_int () in
@@ -112,27 +123,59 @@ let () =
     | Some "X" ->
       (* X tag variant fuel n (sym val)*n *)
       let tag = (match next () with Some s -> s | None -> failwith "tag") in
-      let v = variant_of_int (next_int ()) in let fuel = next_int () in
+      let vi = next_int () in let v = variant_of_int vi in let fuel = next_int () in
       let inp = read_input () in
       (match get_tabs () with
        | Inr t ->
          let gi = (match !cur_gi with Some g -> g | None -> failwith "no grammar") in
-         let r = parse v t gi.gi_rules (linear_act !cur_act) (nat_of_int fuel) inp in
+         let r = parse_from_tab (memo_table vi v t) (is_object v) gi.gi_rules (linear_act !cur_act) (nat_of_int fuel) { stk = []; sp = O } inp in
          Printf.printf "%s run %s : %s\n" !cur_id tag (show_result r)
        | Inl _ -> Printf.printf "%s run %s : nogrammar\n" !cur_id tag);
       loop ()
     | Some "H" ->
       (* H tag variant fuel k (n (sym val)*n)*k *)
       let tag = (match next () with Some s -> s | None -> failwith "tag") in
-      let v = variant_of_int (next_int ()) in let fuel = next_int () in
+      let vi = next_int () in let v = variant_of_int vi in let fuel = next_int () in
       let k = next_int () in
       let inps = read_n k read_input in
       (match get_tabs () with
        | Inr t ->
          let gi = (match !cur_gi with Some g -> g | None -> failwith "no grammar") in
-         let rs = history v t gi.gi_rules (linear_act !cur_act) (nat_of_int fuel) { stk = []; sp = O } inps in
+         let rs = history_tab (memo_table vi v t) (is_object v) gi.gi_rules (linear_act !cur_act) (nat_of_int fuel) { stk = []; sp = O } inps in
          Printf.printf "%s hist %s : %s\n" !cur_id tag (String.concat " ; " (List.map show_result rs))
        | Inl _ -> Printf.printf "%s hist %s : nogrammar\n" !cur_id tag);
+      loop ()
+    | Some "V" ->
+      (* V tag n (sym val)*n k (rule shifted)*k : verified replay of a reported parse *)
+      let tag = (match next () with Some s -> s | None -> failwith "tag") in
+      let inp = read_input () in
+      let k = next_int () in
+      let reds = read_n k (fun () -> let r = next_int () in let s = next_int () in (nat_of_int r, nat_of_int s)) in
+      let gi = (match !cur_gi with Some g -> g | None -> failwith "no grammar") in
+      (match replay gi.gi_rules (linear_act !cur_act) [] inp O reds with
+       | Some v -> Printf.printf "%s replay %s : ok %d\n" !cur_id tag (int_of_z v)
+       | None -> Printf.printf "%s replay %s : invalid\n" !cur_id tag);
+      loop ()
+    | Some "K" ->
+      (match get_tabs () with
+       | Inr t -> Printf.printf "%s conflicts %d %s\n" !cur_id (List.length t.t_conf)
+                    (String.concat " " (List.map (fun (q, a) -> Printf.sprintf "%d:%d" (int_of_nat q) (int_of_nat a)) t.t_conf))
+       | Inl _ -> Printf.printf "%s conflicts error\n" !cur_id);
+      loop ()
+    | Some "Q" ->
+      (* the finite grid of harness/cmd/resolve through resolve_pair / default_pair *)
+      let grid = List.concat_map (fun ty ->
+        let idx = (match ty with 0 -> [5; 7] | 1 -> [-3; -4] | _ -> [0]) in
+        List.concat_map (fun p -> List.concat_map (fun a -> List.map (fun i ->
+          let k = (match ty with 0 -> KShift (nat_of_int i) | 1 -> KReduce (nat_of_int (-i)) | _ -> KError) in
+          { c_kind = k; c_prec = z_of_int p; c_assoc = assoc_of_int a }) idx) [0; 1; 2]) [-1; 1; 2]) [0; 1; 2] in
+      let int_of_assoc = function LEFT -> 0 | RIGHT -> 1 | NONE -> 2 in
+      let show c =
+        let (ty, i) = (match c.c_kind with KShift q -> (0, int_of_nat q) | KReduce r -> (1, - (int_of_nat r)) | KError -> (2, 0)) in
+        Printf.sprintf "%d %d %d %d" ty (int_of_z c.c_prec) (int_of_assoc c.c_assoc) i in
+      List.iter (fun a -> List.iter (fun b ->
+        let res = (match resolve_pair a b with Some w -> show w | None -> "none") in
+        Printf.printf "P %s | %s -> %s ; %s\n" (show a) (show b) res (show (default_pair a b))) grid) grid;
       loop ()
     | Some "M" ->
       (* M tag rows cols cells... : pack a matrix, print unpack(pack) and the lookups *)
